@@ -8,6 +8,10 @@ them with their REAL ``place_on_grid`` (so the cached volume / face-area weights
 
   V(x,y,z) = wx*wy*wz  (cell volume),  A_a(x,y,z) = product of the two widths transverse to a.
 
+For the volume detectors the proof is modular: Lemma A, the weights cached by the real
+place_on_grid equal V (and V > 0); Lemma B, the identities below for an ARBITRARY positive weight
+array in place of the cached one (so in particular for V).
+
   field     reduced.fields[k,c]            == sum_cells spatial.fields[k,c,cell]*V / sum_cells V
   energy    reduced.energy[k]              == sum_cells spatial.energy[k,cell]*V
   phasor    (reduced.phasor' - reduced.phasor)[0,f,c]
@@ -93,7 +97,7 @@ ASSUMPTIONS = [
     "materials: inverse permittivity/permeability entries > 0 for the 1- and 3-component tiers; full tensors unconstrained except invertibility being irrelevant (same tensor on both sides)",
     "component tuples are given in canonical order (Ex,Ey,Ez,Hx,Hy,Hz)",
 ]
-MIN_OBLIGATIONS = {"quick": 4000, "thorough": 20000}
+MIN_OBLIGATIONS = {"quick": 6000, "thorough": 30000}
 LEVEL_TEXT = (
     "Deductive proof of every identity of the property between the records of real detectors (real place_on_grid and update) for ALL "
     "field, material, state, cell-width / spacing values, grid shapes, box positions, time steps and time tables; the extent of the detector "
@@ -181,6 +185,7 @@ def _energy_task(nonuniform, sizes, tier_eps, tier_mu, cplx=False):
         V = L.volume_fn(L.width_fn(cfg, sl))
         mk = lambda red: EnergyDetector(name=f"en{int(red)}", reduce_volume=red, switch=L.on_switch()).place_on_grid(sl, cfg, L.key())  # noqa: E731
         (ds, dr), t_arr, t, k, rows = L.symbolic_schedule([mk(False), mk(True)], inp)
+        (ds, dr), V = L.cut_volume_weights([ds, dr], V, sizes)
         E, H = L.fresh_fields(sizes, "complex" if cplx else "real", inp=inp)
         ie, im = _eps_mu(tier_eps, tier_mu, sizes, inp)
         S0 = A.fresh_array("S0", (rows, *sizes))
